@@ -127,8 +127,8 @@ class Cli(Harness):
         return p.returncode, p.stdout.decode(), p.stderr.decode(), content
     def cli_exe(self):
         import os
-        from .native import BUILD
-        return os.path.join(BUILD, 'cli', 'debug', 'xml_schema_generator')
+        from .native import BUILD, alt_suffix
+        return os.path.join(BUILD, 'cli' + alt_suffix(), 'debug', 'xml_schema_generator')
     def judge_native(self, c, replay, workdir):
         # values the failing clause does not depend on are normalised so that the case becomes a real invocation
         if c['args']['derive'].startswith('-') or '\x00' in c['args']['derive']: c['args']['derive'] = 'Debug'
